@@ -132,7 +132,9 @@ func (c *Context) Parser(input string) *ValType {
 		if a == ERROR_ACTION {
 			panic(fmt.Sprintf("Grammar error near pos %d", currentPos) + ":" + TraceTranslate(lookAhead))
 		} else if a == ACCEPT_ACTION {
-			return &s.ValType
+			// the caller gets a copy: the stack slot is written again by the next parse on this context
+			result := s.ValType
+			return &result
 		} else {
 			if a > 0 {
 				// shift
